@@ -30,6 +30,18 @@ namespace Pistache::Tcp
 {
     using namespace Polling;
 
+    namespace
+    {
+        // A queued file is closed once it has been sent completely (asyncWriteImpl). Nothing
+        // else closes it, so a write that is dropped has to.
+        template <typename Holder>
+        void closeIfFile(const Holder& buffer)
+        {
+            if (buffer.isFile())
+                ::close(buffer.fd());
+        }
+    } // namespace
+
     Transport::Transport(const std::shared_ptr<Tcp::Handler>& handler)
     {
         init(handler);
@@ -239,7 +251,13 @@ namespace Pistache::Tcp
         {
             // Clean up buffers
             Guard guard(toWriteLock);
-            toWrite.erase(fd);
+            auto wit = toWrite.find(fd);
+            if (wit != std::end(toWrite))
+            {
+                for (const auto& write : wit->second)
+                    closeIfFile(write.buffer);
+                toWrite.erase(wit);
+            }
         }
 
         // Don't rely on close deleting this FD from the epoll "interest" list.
@@ -329,12 +347,15 @@ namespace Pistache::Tcp
                     // https://github.com/pistacheio/pistache/issues/501
                     else if (errno == EBADF || errno == EPIPE || errno == ECONNRESET)
                     {
+                        for (const auto& write : wq)
+                            closeIfFile(write.buffer);
                         wq.pop_front();
                         toWrite.erase(fd);
                         stop = true;
                     }
                     else
                     {
+                        closeIfFile(buffer);
                         cleanUp();
                         deferred.reject(Pistache::Error::system("Could not write data"));
                     }
@@ -486,7 +507,10 @@ namespace Pistache::Tcp
 
             auto fd = write->peerFd;
             if (!isPeerFd(fd))
+            {
+                closeIfFile(write->buffer);
                 continue;
+            }
 
             {
                 Guard guard(toWriteLock);
